@@ -830,6 +830,14 @@ pub fn check_c16(
                     None if !owed_answer(out, cp, obs, k) => probe("server_closed_between_requests"),
                     None if first_unread.map(|u| k > u).unwrap_or(false) => probe("sent_behind_unread_body"),
                     None if cut == Some(k) && first_unread.map(|u| k >= u).unwrap_or(false) => {}
+                    // ... or lost as a whole: cut short at byte 0
+                    None if first_unread == Some(k) && obs.eof && cut.is_none() => v.push(Violation {
+                        rule: "c16.response_truncated_on_close".into(),
+                        detail: format!(
+                            "conn {ci}: the response to request {k} (nonce {}), whose body the endpoint left unread, was lost as a whole when the server closed the connection",
+                            rq.nonce
+                        ),
+                    }),
                     None => v.push(Violation {
                         rule: "c16.bystander".into(),
                         detail: format!(
